@@ -98,7 +98,7 @@ type c18fault struct {
 
 func runC18(r *mc.Run) {
 	rd := func(n string) []byte {
-		b, err := os.ReadFile("/repo/testing/testdata/ccel/" + n)
+		b, err := os.ReadFile(repoRoot() + "/testing/testdata/ccel/" + n)
 		if err != nil {
 			r.HarnessError("C18: cannot read sample %s: %v", n, err)
 		}
